@@ -915,7 +915,7 @@ def run(ctx):
     ctx.notes.append('search_exports done at %.1fs' % (time.time() - t0))
     tie_emitters(ctx, exp_res, textdir, specs, per_design=1 if quick else 2)
     ctx.notes.append('tie_emitters done at %.1fs' % (time.time() - t0))
-    tie_trace_bytes(ctx, exp_res, textdir, specs, per_design=1 if quick else 3)
+    tie_trace_bytes(ctx, exp_res, textdir, specs, per_design=1 if quick else 2)
     ctx.notes.append('tie_trace_bytes done at %.1fs' % (time.time() - t0))
     pspecs = make_specs(ctx, 9 if quick else 60, 'p', ['plain', 'zeros', 'sani'])
     pconfigs = make_configs(ctx, 2 if quick else 4, [0, 4])
